@@ -1001,6 +1001,11 @@ func (fv *FV) callWriteComps(x *ast.CallExpr) ([]string, bool) {
 		if t == nil {
 			return nil, true
 		}
+		if call, ok := mx.(*ast.CallExpr); ok && len(call.Args) == 1 {
+			if id := identOf(ast.Unparen(call.Fun)); id != nil && id.Name == "gh_anyOf" {
+				mx = ast.Unparen(call.Args[0])
+			}
+		}
 		// ghost variable
 		if id := identOf(mx); id != nil {
 			if v, ok := cl.Info.ObjectOf(id).(*types.Var); ok && fv.eng.ghostVars[v] {
@@ -1018,6 +1023,19 @@ func (fv *FV) callWriteComps(x *ast.CallExpr) ([]string, bool) {
 				out = append(out, leafComps(ut.Elem())...)
 			} else {
 				out = append(out, cellComps("E$"+sanitize(elemKey(ut.Elem())), ut.Elem())...)
+			}
+			switch hx := mx.(type) {
+			case *ast.SelectorExpr:
+				savedInfo := fv.info
+				fv.info = cl.Info
+				cs, all := fv.lhsComps(hx)
+				fv.info = savedInfo
+				if all {
+					return nil, true
+				}
+				out = append(out, cs...)
+			case *ast.StarExpr:
+				return nil, true // header location unknown statically
 			}
 			continue
 		case *types.Map:
